@@ -1,6 +1,6 @@
 SPECIFICATION TSpec
 CONSTANTS
-  Names = {"x", "y", "z", "callVariable", "callFunction", "callCellValue", "callRangeValue", "xy", "callVariableX"}
+  Names = {"x", "y", "z", "callVariable", "callFunction", "callCellValue", "callRangeValue", "xy", "callVariableX", "X", "Xy", "callvariable"}
   OnceGuard = TRUE
 INVARIANT Verdict
 CHECK_DEADLOCK FALSE
